@@ -464,7 +464,7 @@ def gen_new_history(rng, nops, faults):
         if y < 0.55:
             ops.append("%d A %d %s" % (k(), h, _new_std(rng, r, c, nprm)))
         elif y < 0.75:
-            ops.append("%d E %d %s" % (k(), h, rng.choice(["set 0", "set 0", "set 1", "set 2", "set 2", "clear", "clear", "clear", "bad", "inv"])))
+            ops.append("%d E %d %s" % (k(), h, rng.choice(["set 0", "set 0", "set 1", "set 2", "set 2", "clear", "clear", "clear", "bad", "inv", "close"])))
         elif y < 0.92:
             ops.append("%d S %d" % (k(), h))
         elif y < 0.96:
@@ -488,7 +488,12 @@ NEW_DIRECTED = {
     # a one-port SOL calibration that solves; then a fourth standard with an unknown parameter (DI91: its add failing after
     # _vnacal_new_get_parameter must not make the calibration unsolvable) and measurement errors by spline (DI90)
     "t8_sol_then_unknown": ["-1 cfg s u3", "-1 N 0 1 1 3", "-1 T 0", "-1 A 0 sr 1 2", "-1 A 0 sr 1 1", "-1 A 0 sr 1 0", "-1 S 0", "-1 A 0 sr 1 4",
-                            "-1 S 0", "-1 E 0 set 2", "-1 S 0", "-1 A 0 sr 1 3", "-1 E 0 set 1", "-1 S 0", "-1 end"],
+                            "-1 S 0", "-1 E 0 set 2", "-1 S 0", "-1 A 0 sr 1 3", "-1 E 0 close", "-1 E 0 set 1", "-1 S 0",
+                            # a second calibration with too few standards: the kernel gives up (a non-allocation failure exit of the solve)
+                            "-1 N 0 1 1 3", "-1 T 1", "-1 A 1 sr 1 2", "-1 S 1", "-1 end"],
+    # DI92: two unknowns solved by a 2-frequency calibration, then by a 3-frequency one (the write-back replaces both frequency vectors)
+    "t8_two_unknowns_two_news": ["-1 cfg s s u3 u4", "-1 N 0 1 1 2", "-1 T 0", "-1 A 0 sr 1 2", "-1 A 0 sr 1 1", "-1 A 0 sr 1 0", "-1 A 0 sr 1 5", "-1 A 0 sr 1 6",
+                                 "-1 S 0", "-1 N 1 1 1 3", "-1 T 1", "-1 A 1 sr 1 2", "-1 A 1 sr 1 1", "-1 A 1 sr 1 0", "-1 A 1 sr 1 5", "-1 A 1 sr 1 6", "-1 S 1", "-1 S 0", "-1 end"],
     # TE10 (leakage terms outside the system), eight distinct parameters: the hash grows from 8 to 16 buckets
     "te10_hash_growth": ["-1 cfg s s s s s u4", "-1 N 2 2 2 1", "-1 T 0", "-1 A 0 dr 1 2 1 2", "-1 A 0 dr 1 2 3 4", "-1 A 0 dr 1 2 5 6", "-1 A 0 dr 1 2 7 8",
                          "-1 A 0 th 1 2", "-1 A 0 dr 1 2 0 0", "-1 S 0", "-1 F 0", "-1 end"],
@@ -508,7 +513,7 @@ def _pair_lines(script, cl, rc):
             cres.append(r)
             ops.append(line)
             continue
-        if len(t) >= 2 and t[1] == "V":             # C side only (digest of the solved terms): one "D" line, not an op of the model
+        if len(t) >= 2 and t[1] in ("V", "P"):      # C side only (solved terms / a parameter value): one "D" line, not an op of the model
             ci += 1
             continue
         if ci + 1 < len(cl) and cl[ci].startswith("I skip") and cl[ci + 1].startswith("R SKIP"):
@@ -583,7 +588,7 @@ def _probe_lines(script, cl, rc):
         if (len(t) >= 2 and t[1] in ("cfg", "end")) or t == ["end"]:
             ci += 1
             continue
-        if len(t) >= 2 and t[1] == "V":
+        if len(t) >= 2 and t[1] in ("V", "P"):
             out.append((line, cl[ci] if ci < len(cl) else "<dead rc=%d>" % rc))
             ci += 1
             continue
@@ -626,9 +631,12 @@ def as_before_check(ctx, exe, name, script):
     minput, cres, ops = _pair_lines(script, cl, rc)
     body = [l for l in script if l in ops]
     nh = sum(1 for l in body if l.split()[1] == "N")
-    probes = []
+    kinds = script[0].split()[2:]
+    unknowns = [3 + n for n, kd in enumerate(kinds) if kd[0] in "uc"]
+    vprobes = ["-1 V %d" % h for h in range(nh)] + ["-1 P %d 1e9" % u for u in unknowns]
+    sprobes = []
     for h in range(nh):
-        probes += ["-1 S %d" % h, "-1 V %d" % h]
+        sprobes += ["-1 S %d" % h, "-1 V %d" % h]
     found = []
     seen = set()
     for j, (o, r) in enumerate(zip(ops, cres)):
@@ -637,6 +645,9 @@ def as_before_check(ctx, exe, name, script):
         n = int(rt[4]) if (len(rt) > 4 and rt[0] == "R" and rt[4].isdigit()) else 0
         if t[1] in ("cfg", "end", "V", "T", "F") or n == 0:
             continue
+        # the state left by the failed call is looked at directly (solved terms, parameter values); vnacal_new_solve is a probe too,
+        # unless the failed call is itself a solve: then it would be the repeat, which repairs what the failed call left
+        probes = vprobes + ([] if t[1] == "S" else sprobes + ["-1 P %d 1e9" % u for u in unknowns])
         base = body[:j] + probes + ["-1 end"]
         rb, clb, errb = run_c(ctx, exe, base)
         pb = _probe_lines(base, clb, rb)[j - 1:]
@@ -661,7 +672,8 @@ def as_before_check(ctx, exe, name, script):
                 diff = diff or ("<sanitizer>", errs[-300:], "")
             if diff is None:
                 continue
-            effect = "solve-fails" if diff[1].startswith("solve fails") else "solve-differs" if diff[1].startswith("D") else "other"
+            effect = ("parameter-differs" if diff[0].split()[1] == "P" else "solve-fails" if (diff[0].split()[1] == "S" and diff[1] != diff[2]) else
+                      "solve-differs" if diff[1].startswith("D") else "other")
             opname = " ".join(t[1:2] + (t[3:4] if t[1] in ("A", "E") else []))
             key = (opname, effect)
             if key in seen:
@@ -727,7 +739,7 @@ def run_new_tie(ctx, prop):
     # C12: a call that failed with ENOMEM leaves the calibration as it was (observed through vnacal_new_solve and the solved terms)
     if faults:
         nb = 0
-        for name in ("t8_sol_then_unknown",) if quick else sorted(NEW_DIRECTED):
+        for name in ("t8_sol_then_unknown", "t8_two_unknowns_two_news") if quick else sorted(NEW_DIRECTED):
             for sig, text, replay in as_before_check(ctx, exe, name, list(NEW_DIRECTED[name])):
                 ctx.violation(sig, text, replay)
                 nb += 1
